@@ -768,7 +768,7 @@ def default_of(ty):
     return {"Int32": "0i32", "Int64": "0i64", "UInt8": "0u8", "Bool": "false", "Char": "'a'"}[ty.name]
 
 
-def driver_source(kernels):
+def driver_source(kernels, kernel_sources=True):
     """one program: all kernels + main(which, args...).  argv: which, then per parameter either
     the value or (for an array) its length followed by its elements.  Prints `r=<result>` and
     one `<name>=,e0,e1,..` line per array parameter (contents after the call)."""
@@ -785,8 +785,9 @@ def driver_source(kernels):
                    % (tag, en, en, default_of(et), from_arg(et, 0).replace("arg(0i32)", "arg(p + j.to_int32())")))
         out.append("fn show%s(a: Array[%s]): String {\n  let mut s = \"\";\n  let mut j = 0;\n"
                    "  while j < a.size() { s = s + \",%s\"; j = j + 1; }\n  s\n}" % (tag, en, show_expr(et, "a(j)")))
-    for k in kernels:
-        out.append(k.source())
+    if kernel_sources:
+        for k in kernels:
+            out.append(k.source())
     for idx, k in enumerate(kernels):
         body = ["  let mut p = 1i32;"]
         names = []
